@@ -121,7 +121,7 @@ func verifSysctl(t *testing.T, r *vfh.Rand, out *vfh.Out) {
 				if a != 2 && f != 2 && alt != other[0] {
 					continue
 				}
-				tuplesS(opsAll, 3, func(ops []string) { run(a, f, alt, ops) })
+				vfTuplesS(opsAll, 3, func(ops []string) { run(a, f, alt, ops) })
 			}
 		}
 	}
@@ -144,7 +144,7 @@ func verifSysctl(t *testing.T, r *vfh.Rand, out *vfh.Out) {
 	}
 }
 
-func tuplesS(alpha []string, k int, fn func([]string)) {
+func vfTuplesS(alpha []string, k int, fn func([]string)) {
 	var rec func(cur []string)
 	rec = func(cur []string) {
 		fn(append([]string(nil), cur...))
